@@ -21,10 +21,13 @@ is): `cidr_abbrev_to_verbose` on NON-str arguments (audit 2a, finding 10) and
             return abbrev_cidr
 
 So for an int-like argument with `i = int(x)`: 0 ≤ i ≤ 255 → the text `i.0.0.0/<class>`; otherwise
-`classful_prefix` raises IndexError and the ARGUMENT ITSELF comes back — except that formatting
-the IndexError message (`'%r' % octet`) raises ValueError for an int beyond the interpreter's
-int-to-str digit limit (4300 digits by default), which lands in `except ValueError`, where
-`'/' in abbrev_cidr` raises TypeError out of the function.
+`classful_prefix` raises IndexError and the ARGUMENT ITSELF comes back — except for an int beyond
+the interpreter's int-to-str digit limit (4300 digits by default): a ValueError is raised while the
+text is being built (CPython ≥ 3.11 compiles `"%s…%s" % (i, f(i))` into in-order formatting, so
+`i` itself is formatted with `%s` before `classful_prefix(i)` is even called; without that
+optimisation the IndexError message `'%r' % octet` hits the same limit), it lands in
+`except ValueError`, where `'/' in abbrev_cidr` raises TypeError out of the function.  Every such
+int is outside 0..255, so the two mechanisms cannot be told apart from outside.
 
     def __repr__(self):                                   # IPNetwork, netaddr/ip/__init__.py:1366-1369
         return "%s('%s')" % (self.__class__.__name__, self)
@@ -57,7 +60,7 @@ def abbrevOfInt (i : Int) : R AbbrevRes :=
   match classfulPrefix i with
   | some p => .ok (.text (showInt i ++ ".0.0.0/".toList ++ dec p))
   | none =>
-    -- IndexError('Invalid octet: %r!' % octet): the message is formatted first
+    -- beyond the int-to-str digit limit: ValueError while formatting, then TypeError out of the handler
     if i.natAbs ≥ 10 ^ intMaxStrDigits then .error .type_ else .ok .same
 
 /-- `cidr_abbrev_to_verbose(abbrev_cidr)`, every argument type -/
